@@ -417,6 +417,9 @@ func TestC17(t *testing.T) {
 		out.Emit(pr[0], pr[1])
 		out.Nontrivial("ack:" + pr[1][:min(len(pr[1]), 18)])
 	}
+	// GetSwitchParams: the real keeper against its regenerated, interpreted statement program + branch isolation of parameter reads
+	out.Reset("models-switchparams")
+	switchOps(out, lastGen)
 	modelOps(t, out, seed, lastGen)
 }
 
